@@ -78,6 +78,7 @@ type VM struct {
 	fninfo  map[*ssa.Function]*fnInfo
 	intr    map[string]Intrinsic
 
+	co         *coro // the goroutine (coroutine) executing right now; nil: main thread / thread 2
 	epoch      int
 	undo       []undoRec
 	objCounter int
